@@ -276,6 +276,14 @@ impl SubRule {
                 Ok(pos.at_syll_start())
             },
             ParseElement::Ipa(s, m) => if self.context_match_ipa(s, m, word, *pos, state.position)? {
+                // a length modifier speaks about the whole long segment, which is then matched as a whole
+                if m.as_ref().is_some_and(|mods| mods.suprs.length.iter().any(|l| l.is_some())) {
+                    let mut seg_length = word.seg_length_at(*pos);
+                    while seg_length > 1 {
+                        pos.increment(word);
+                        seg_length -= 1;
+                    }
+                }
                 pos.increment(word); 
                 Ok(true)
             } else { Ok(false) },
